@@ -19,9 +19,9 @@ EvLk(e) == LET S == ToSet(e.lk)
                key(r) == <<r.kind, r.db, r.coll, r.part>>
            IN [x \in {key(r) : r \in S} |-> LET r == CHOOSE r \in S : key(r) = x IN [has |-> r.has, t |-> r.t]]
 
-KFNames == {"C15_STALEDB", "C15_NAMEONLY", "C15_KEYCLASH"}
+KFNames == {"C15_STALEDB", "C15_LIVEDB", "C15_KEYCLASH"}
 KFEnabled == {n \in KFNames : KFOn(n)}
-FlagsFor(S) == [stale |-> "C15_STALEDB" \in S, nameonly |-> "C15_NAMEONLY" \in S, safekeys |-> "C15_KEYCLASH" \notin S]
+FlagsFor(S) == [stale |-> "C15_STALEDB" \in S, guard |-> "C15_LIVEDB" \notin S, safekeys |-> "C15_KEYCLASH" \notin S]
 DesignLk(cat, mode, S) == LkOf(cat, FlagsFor(S), Design(cat, mode, FlagsFor(S)))
 
 Ideal(e) == Contract(e.cat, e.mode, EvLk(e), ToSet(e.extra))
